@@ -11,8 +11,11 @@ from vlib import build_walks, read_ndjson, split_traces, Infra
 
 PROPS = ["C21", "C22"]
 
-QUICK = {"C21": ["P2", "A"], "C22": ["T", "A"]}
-THOROUGH = {"C21": ["P", "Q", "A", "T"], "C22": ["P", "Q", "A", "T"]}
+QUICK = {"C21": ["P2", "M", "A"], "C22": ["T", "A"], "C35": ["P2", "M"]}
+THOROUGH = {"C21": ["P", "Q", "A", "M", "T"], "C22": ["P", "Q", "A", "M", "T"], "C35": ["P2", "M", "A", "T"]}
+# free-running races (one handler's snapshot write is slow, the other starts meanwhile, the process
+# stops when the slow write returned): which pairs exist per scenario
+RACES = {"P2": ["X,Y", "Y,X"], "P": ["X,Y", "Y,X", "Y,Z"], "Q": ["Y,W"], "A": ["X,Y", "Y,X"], "M": ["X,Y", "Y,X"], "T": ["Y,W"]}
 
 
 def known_set(ctx):
@@ -28,7 +31,7 @@ def cfg_with_known(d, cfg, ids):
     open(p, "w").write(s)
 
 
-def run(ctx, args):
+def run(ctx, args, race_only=False):
     quick = ctx.tier == "quick"
     rng = random.Random(ctx.seed)
     d = ctx.specdir("Node")
@@ -45,17 +48,18 @@ def run(ctx, args):
         pass
     mine = known_set(ctx)
     # ---- E3
-    for sc in scns:
+    for sc in ([] if race_only else scns):
         cfg = "MC_Node_%s_All.cfg" % sc
         src = open(os.path.join(d, cfg)).read().replace("Known <- KnownAll", "Known <- %s" % (
             {frozenset(): "KnownNone", frozenset({"C21-1"}): "Known21", frozenset({"C22-1"}): "Known22",
              frozenset({"C21-1", "C22-1"}): "KnownAll"}[frozenset(all_known)]))
         open(os.path.join(d, cfg), "w").write(src)
         ctx.tlc_mc(d, "MC_Node.tla", cfg, workers=8, timeout=1200)
-    ctx.exhaustive = True
+    if not race_only:
+        ctx.exhaustive = True
     # non-vacuity: without the known findings the design-level invariants are violated (the model
     # reaches the states the findings describe)
-    if all_known:
+    if all_known and not race_only:
         if "C21-1" in all_known:
             ctx.tlc_mc(d, "MC_Node.tla", "MC_Node_P2_None.cfg", workers=4, timeout=600, expect_violation="C21Inv", count=False)
         if "C22-1" in all_known:
@@ -63,10 +67,13 @@ def run(ctx, args):
     # ---- E1
     walks = []
     for sc in scns:
-        edges = ctx.tlc_edges(d, "MC_Node.tla", "Gen_Node_%s.cfg" % sc)
-        ws = build_walks(edges, rng=rng, n_random=(10 if quick else 200), depth=30, maxlen=36)
-        for w in ws:
-            walks.append({"scn": sc, "steps": [e["o"] for e in w]})
+        if not race_only:
+            edges = ctx.tlc_edges(d, "MC_Node.tla", "Gen_Node_%s.cfg" % sc)
+            ws = build_walks(edges, rng=rng, n_random=(10 if quick else 200), depth=30, maxlen=36)
+            for w in ws:
+                walks.append({"scn": sc, "steps": [e["o"] for e in w]})
+        for pair in RACES.get(sc, []):
+            walks.append({"scn": sc, "steps": [{"a": "Race", "s": pair}, {"a": "Restart"}]})
     ctx.log("walks: %d" % len(walks))
     cases = os.path.join(ctx.scratch, "cases.json")
     with open(cases, "w") as fh:
@@ -77,14 +84,15 @@ def run(ctx, args):
     for f in files:
         events += read_ndjson(f)
     traces = split_traces(events)
-    ctx.evaluations = sum(1 for e in events if e["ev"] in ("Call", "Crash", "Restart"))
-    ctx.distinct = len({json.dumps([(e.get("s"), e.get("call"), e["ev"]) for e in t[1]]) for t in traces
+    ctx.evaluations += sum(1 for e in events if e["ev"] in ("Call", "Crash", "Restart"))
+    ctx.distinct += len({json.dumps([(e.get("s"), e.get("call"), e["ev"]) for e in t[1]]) for t in traces
                         if any(e["ev"] == "Restart" for e in t[1])})
-    ctx.rule = ("every transition of the TLC state graphs of the scenarios %s (all interleavings of the per-chain "
+    ctx.rule += ("every transition of the TLC state graphs of the scenarios %s (all interleavings of the per-chain "
                 "finalization handlers at storage-call granularity, a process stop between any two calls, restart) "
                 "replayed on a real kernel.Node by greedy edge-cover walks plus seeded random walks; distinct = "
-                "distinct recorded executions that contain a stop and a restart" % scns)
-    ctx.samples = [[(e.get("s", ""), e.get("call", e["ev"])) for e in t[1]][:40] for t in traces[:2]]
+                "distinct recorded executions that contain a stop and a restart; plus free-running two-handler races with one slow "
+                "snapshot write and a stop right after it (commit order = position order)" % scns)
+    ctx.samples += [[(e.get("s", ""), e.get("call", e["ev"])) for e in t[1]][:40] for t in traces[:2]]
     restarts = sum(1 for e in events if e["ev"] == "Restart")
     ctx.cov["restarts_observed"] = restarts
     # ---- E2 per scenario
@@ -132,7 +140,7 @@ def run(ctx, args):
                 continue
             o = e["obs"]
             if ctx.pid == "C21" and "C21-1" in mine:
-                cons = {"P2": {"X"}, "P": {"X"}, "Q": {"X"}, "A": {"X"}, "T": set()}[sc]
+                cons = {"P2": {"X"}, "P": {"X"}, "Q": {"X"}, "A": {"X"}, "M": {"X"}, "T": set()}[sc]
                 t = o["topo"]
                 mpos = t.index(o["marker"]) + 1 if o["marker"] in t else 0
                 if any(s in cons and mpos < i + 1 for i, s in enumerate(t)):
@@ -142,6 +150,8 @@ def run(ctx, args):
     for k in ctx.known():
         if k["id"] in reached:
             ctx.known_reached.append("%s %s" % (k["id"], k["text"]))
+    if race_only:
+        return
     ctx.assumptions += [
         "every storage call is an atomic, synchronously durable Badger transaction (SyncWrites), so a process stop leaves exactly the completed calls",
         "interleavings are controlled at storage-call boundaries; in-memory races between handlers are not explored",
